@@ -38,11 +38,12 @@ structure Inv2 (r : Nat) (f0 g : List (Path × PObj)) : Prop where
   names : ∀ x ∈ f0.map (·.1), x ∈ g.map (·.1)
   oldFrom : ∀ q o, (q, PObj.old o) ∈ g → (q, PObj.old o) ∈ f0
   oldOrDone : ∀ q o, (q, PObj.old o) ∈ f0 → (q, PObj.old o) ∈ g ∨ Done2 r f0 g q o
+  keepNew : ∀ q n, (q, PObj.new n) ∈ f0 → (q, PObj.new n) ∈ g
   pathsFrom : ∀ x ∈ g.map (·.1), x ∈ f0.map (·.1) ∨
     ∃ q o, (q, PObj.old o) ∈ f0 ∧ (q, PObj.old o) ∉ g ∧ x ∈ extras q
 
 theorem Inv2.refl (r : Nat) {f0 : List (Path × PObj)} (h : (f0.map (·.1)).Nodup) : Inv2 r f0 f0 :=
-  ⟨h, fun _ h => h, fun _ _ h => h, fun _ _ h => Or.inl h, fun _ h => Or.inl h⟩
+  ⟨h, fun _ h => h, fun _ _ h => h, fun _ _ h => Or.inl h, fun _ _ h => h, fun _ h => Or.inl h⟩
 
 theorem converted_cons (r : Nat) (p : Path) (o : OldProp) :
     converted r p o = (p, PObj.new (mainOf r o)) :: (converted r p o).tail := by
@@ -153,6 +154,13 @@ theorem inv2_convert (hnd0 : (f0.map (·.1)).Nodup) (hnamed : ∀ e ∈ f0, e.1 
               obtain ⟨s, hs, rfl⟩ := List.mem_map.mp hx
               obtain ⟨s', hs', he⟩ := List.mem_map.mp h2
               exact hqp (extraPath_inj hs' hs hpne hqne he).1.symm
+  · -- keepNew
+    intro q n hq
+    have hqg := hinv.keepNew q n hq
+    have hne : q ≠ p := by
+      intro h; subst h
+      cases mem_unique hnd hqg hp
+    exact List.mem_append_left _ (mem_filter_ne.mpr ⟨hqg, hne⟩)
   · -- pathsFrom
     intro x hx
     rw [List.map_append, List.mem_append] at hx
@@ -227,6 +235,29 @@ theorem inv2_runSteps {lib : List Nat} {r : Nat} {f0 : List (Path × PObj)} (hnd
     cases e with
     | some e => exact h1
     | none => exact ih f' h1
+
+/-- arrays, dimension readings and everything else are kept by a successful upgrade of any file -/
+theorem upgrade_rest_kept {lib : List Nat} {r : Nat} {f : File} (hwf : WF f) (hok : (upgrade lib r f).2 = none) :
+    (upgrade lib r f).1.arrays.map arrView = f.arrays.map arrView ∧ (upgrade lib r f).1.other = f.other := by
+  refine (run_induction_ok (lib := lib) (r := r)
+    (fun g => g.arrays.map arrView = f.arrays.map arrView ∧ g.other = f.other) ?_ _ f rfl hwf ⟨rfl, rfl⟩ hok).1
+  intro g s rest g' hwfg hP hc hs
+  rcases head_class hc with rfl | ⟨p, t, rfl, _⟩ | ⟨ap, dn, D, rfl, hd⟩ | rfl
+  · simp only [applyStep] at hs
+    split at hs <;> (cases hs; exact hP)
+  · simp only [applyStep] at hs
+    obtain ⟨_, _, h3, h4, _⟩ := convertProp_kept r g p hwfg.1
+    rw [hs] at h3 h4
+    simp only at h3 h4
+    rw [h3, h4]
+    exact hP
+  · simp only [applyStep] at hs
+    obtain ⟨h1, _, h3⟩ := convertDim_view hs
+    rw [h1, h3]
+    exact hP
+  · simp only [applyStep, Prod.mk.injEq] at hs
+    rw [← hs.1]
+    exact hP
 
 /-- a finished conversion decodes from what the reader sees -/
 theorem done2_decode {r : Nat} {f0 g : List (Path × PObj)} {p : Path} {o : OldProp}
